@@ -169,11 +169,13 @@ type Sim struct {
 	FocusPreempt int // preemptions inside focus files
 
 	// logs
-	Events    []string
-	KeepLog   bool
-	digest    uint64
-	schedHash uint64
-	arrival   map[string]int
+	Events      []string
+	KeepLog     bool
+	noYield     int  // >0 while the holder formats map keys for a canonical order (may call Stringers of the code under test)
+	TraceYields bool // diagnostic: every holder yield goes to the event log
+	digest      uint64
+	schedHash   uint64
+	arrival     map[string]int
 
 	// seams
 	Exec     func(cmd *exec.Cmd, op string) ([]byte, error)
@@ -479,6 +481,14 @@ func Yield(site string) {
 	if !isHolder {
 		s.park(t, site)
 		return
+	}
+	if s.noYield > 0 {
+		return // inside the runtime's own key formatting (MapKeys / Map.Range): not a program point
+	}
+	if s.TraceYields {
+		s.mu.Lock()
+		s.logLocked("y " + t.key + " " + site)
+		s.mu.Unlock()
 	}
 	s.lastSite = site
 	focus := s.inFocus(site)
@@ -977,7 +987,11 @@ func (m *Map) Range(f func(k, v any) bool) {
 	m.mu.Lock()
 	keys := append([]any(nil), m.keys...)
 	m.mu.Unlock()
-	sort.Slice(keys, func(i, j int) bool { return fmt.Sprint(keys[i]) < fmt.Sprint(keys[j]) })
+	if s := S; s != nil && s.on {
+		sortCanonical(s, keys)
+	} else {
+		sort.Slice(keys, func(i, j int) bool { return fmt.Sprint(keys[i]) < fmt.Sprint(keys[j]) })
+	}
 	keys = rotate(keys)
 	for _, k := range keys {
 		v, ok := m.Load(k)
@@ -988,6 +1002,33 @@ func (m *Map) Range(f func(k, v any) bool) {
 			return
 		}
 	}
+}
+
+// sortCanonical sorts keys by their printed form. Printing may call String methods of the code
+// under test (instrumented): their yields are suppressed and each key is printed exactly once, so
+// the number of program points passed does not depend on Go's map iteration order.
+func sortCanonical[K any](s *Sim, keys []K) {
+	isTask := !s.isSched()
+	if isTask {
+		s.noYield++
+	}
+	strs := make([]string, len(keys))
+	for i := range keys {
+		strs[i] = fmt.Sprintf("%#v", keys[i])
+	}
+	if isTask {
+		s.noYield--
+	}
+	idx := make([]int, len(keys))
+	for i := range idx {
+		idx[i] = i
+	}
+	sort.Slice(idx, func(a, b int) bool { return strs[idx[a]] < strs[idx[b]] })
+	out := make([]K, len(keys))
+	for i, j := range idx {
+		out[i] = keys[j]
+	}
+	copy(keys, out)
 }
 
 func rotate[K any](keys []K) []K {
@@ -1019,7 +1060,7 @@ func MapKeys[K comparable, V any](m map[K]V, site string) []K {
 	if s == nil || !s.on {
 		return keys
 	}
-	sort.Slice(keys, func(i, j int) bool { return fmt.Sprint(keys[i]) < fmt.Sprint(keys[j]) })
+	sortCanonical(s, keys)
 	return rotate(keys)
 }
 
